@@ -26,6 +26,9 @@ def run(ctx):
     dsl.verify(ctx, repo, r2, "C19.subtree", S.SUB + ".sample_tree", S.h_subtree_prefix, expect_covers=S.SUB_COVERS)
     dsl.verify(ctx, repo, B.registry(), "C19.boot", [B.SAMPLE, B.LOGP], B.harness, expect_covers=B.COVERS, concretise=B.concretise)
     common.adapted_contracts(ctx, repo, "C19")
+    from contracts import c01_std as STD
+
+    STD.verify_all(ctx, repo, "C19")
     dsl.verify(ctx, repo, GB.registry(), "C19.dp", GB.DPS + ".sample_tree", GB.h_dp, expect_covers=GB.DP_COVERS)
     dsl.verify(ctx, repo, GB.registry(), "C19.prg", GB.PRG + ".sample_tree", GB.h_prg, expect_covers=GB.PRG_COVERS)
     dsl.verify(ctx, repo, PM.registry(), "C19.perm", PM.RPD + ".log_count", PM.h_log_count, expect_covers=["top", "inner"])
